@@ -82,7 +82,7 @@ def run_unit(unit, canary=None, extra_args=(), seed=None, tag=''):
     g = gen.generate(unit, canary=canary)
     res.g = g
     os.makedirs(OUT, exist_ok=True)
-    path = os.path.join(OUT, f'{unit.name}{"." + canary if canary else ""}{tag}.rs')
+    path = os.path.join(OUT, f'{unit.name}{"_canary_" + canary if canary else ""}{tag}.rs')
     with open(path, 'w', encoding='utf-8') as f:
         f.write(g.text)
     res.path = path
